@@ -405,7 +405,9 @@ def self_supertraits(tr, educed):
 
 def self_holds(enc, req, s, educed, Wmap):
     if s in req.hand:
-        return z3.BoolVal(True)
+        # hand-written partner impls in the probe crate are written `where Self: <supertraits>`
+        sup = {'PartialOrd': ['PartialEq'], 'Eq': ['PartialEq'], 'Copy': ['Clone'], 'Ord': ['Eq', 'PartialOrd']}.get(s, [])
+        return z3.And([self_holds(enc, req, x, educed, Wmap) for x in sup]) if sup else z3.BoolVal(True)
     if s in Wmap:
         return Wmap[s]
     if s == 'Eq' and 'PartialEq' in educed and 'Eq' in educed:
@@ -555,7 +557,7 @@ def c11_corpus(tier, seed):
             add('enum', tparams(['T', 'U']), [('A', 'tuple', [Field(T, **{tr: role}), Field(NOIMPL, **{tr: role})], False), ('B', 'named', [Field(ARR(U))], False), ('C', 'unit', [], False)], [(tr, None)])
             add('enum', tparams(['T', 'U', 'V']), [('A', 'named', [Field(BOX(T)), Field(U, **{tr: role})], False), ('B', 'tuple', [Field(V, **{tr: role}), Field(PH(U))], False)], [(tr, None)])
         add('struct', tparams(['T', 'U']), [('S', 'named', [Field(PH(T)), Field(U)], False)], [(tr, None)])
-        add('struct', tparams(['T']), [('S', 'unit', [], False)], [(tr, None)])
+        add('struct', [], [('S', 'unit', [], False)], [(tr, None)])
         add('enum', tparams(['T', 'U']), [('A', 'unit', [], False), ('B', 'tuple', [Field(PAIR(T, OPT(U)))], False)], [(tr, None)])
     # Eq next to PartialEq (companion), attributes carried by Eq(..)
     add('struct', tparams(['T', 'U']), [('S', 'named', [Field(T), Field(U, Eq='ignore')], False)], [('PartialEq', None), ('Eq', None)])
@@ -615,7 +617,12 @@ def c11_corpus(tier, seed):
                     fs.append(Field(rng.choice(terms), **({tr: role} if role else {})))
                 vs.append((['A', 'B', 'C'][k], rng.choice(['named', 'tuple']) if fs else 'unit', fs, False))
             kind = 'enum' if len(vs) > 1 or rng.random() < 0.3 else 'struct'
-            add(kind, tparams(['T', 'U', 'V']), vs if kind == 'enum' else vs[:1], [(tr, None)])
+            # every type parameter must be used somewhere: a PhantomData field mentioning all of them
+            vs.append(('Z', 'tuple', [Field(PH(PAIR(T, PAIR(U, V))))], False))
+            if kind == 'struct':
+                vn, vk, fs, dm = vs[0]
+                vs = [(vn, 'tuple' if vk == 'unit' else vk, list(fs) + [Field(PH(PAIR(T, PAIR(U, V))))], dm)]
+            add(kind, tparams(['T', 'U', 'V']), vs, [(tr, None)])
     return reqs
 
 
@@ -787,17 +794,20 @@ def hand_impls(req, name):
     args = '<' + ', '.join(n for k, n, b, d in req.params) + '>' if req.params else ''
     wh = f' where {req.where}' if req.where else ''
     s = ''
+    def whr(extra):
+        parts = [x for x in [req.where, extra] if x]
+        return (' where ' + ', '.join(parts)) if parts else ''
     for h in req.hand:
         if h == 'PartialEq':
-            s += f'impl{hdr_nodef} PartialEq for {name}{args}{wh} {{ fn eq(&self, _o: &Self) -> bool {{ true }} }}\n'
+            s += f'impl{hdr_nodef} PartialEq for {name}{args}{whr(None)} {{ fn eq(&self, _o: &Self) -> bool {{ true }} }}\n'
         elif h == 'Eq':
-            s += f'impl{hdr_nodef} Eq for {name}{args}{wh} {{}}\n'
+            s += f'impl{hdr_nodef} Eq for {name}{args}{whr("Self: PartialEq")} {{}}\n'
         elif h == 'PartialOrd':
-            s += f'impl{hdr_nodef} PartialOrd for {name}{args}{wh} {{ fn partial_cmp(&self, _o: &Self) -> Option<Ordering> {{ None }} }}\n'
+            s += f'impl{hdr_nodef} PartialOrd for {name}{args}{whr("Self: PartialEq")} {{ fn partial_cmp(&self, _o: &Self) -> Option<Ordering> {{ None }} }}\n'
         elif h == 'Clone':
-            s += f'impl{hdr_nodef} Clone for {name}{args}{wh} {{ fn clone(&self) -> Self {{ loop {{}} }} }}\n'
+            s += f'impl{hdr_nodef} Clone for {name}{args}{whr(None)} {{ fn clone(&self) -> Self {{ loop {{}} }} }}\n'
         elif h == 'Copy':
-            s += f'impl{hdr_nodef} Copy for {name}{args}{wh} {{}}\n'
+            s += f'impl{hdr_nodef} Copy for {name}{args}{whr("Self: Clone")} {{}}\n'
     return s
 
 
@@ -824,14 +834,14 @@ class Probe:
     def ask(self, label, ty, trait_path):
         self.qs.append((label, f'impls!({ty}: {trait_path})'))
 
-    def run(self, tag):
+    def run(self, tag, nonce=0):
         d = os.path.join(WORK, f'probe_{tag}_{os.getpid()}')
         shutil.rmtree(d, ignore_errors=True)
         os.makedirs(os.path.join(d, 'src'))
         open(os.path.join(d, 'Cargo.toml'), 'w').write(f'[package]\nname = "probe"\nversion = "0.0.0"\nedition = "2021"\n[dependencies]\neduce = {{ path = "{REPO}" }}\n[workspace]\n')
         copy_lock(d)
         main = 'fn main() {\n' + ''.join(f'    println!("{{}}\\t{{}}", "{lab}", {ex});\n' for lab, ex in self.qs) + '}\n'
-        open(os.path.join(d, 'src', 'main.rs'), 'w').write(PROBE_PRELUDE + self.decls + main)
+        open(os.path.join(d, 'src', 'main.rs'), 'w').write(f'// build {nonce}\n' + PROBE_PRELUDE + self.decls + main)
         rc, out = sh(['cargo', 'run', '--quiet', '--offline', '--target-dir', os.path.join(WORK, 'target-native')], cwd=d,
                      env={'RUSTFLAGS': '-Awarnings'}, timeout=1800)
         res = {}
@@ -1018,6 +1028,13 @@ def main(prop, tier, seed, keep=False):
             inst = {p: [t for t in ALLT if rng.random() < 0.5] for p in req.type_params()}
             if 'Marker' in req.header() or 'Marker' in (req.where or ''):
                 inst = {p: ts + ['Marker'] for p, ts in inst.items()}
+            # the instantiated type must be well-formed: satisfy the type's own inline bounds
+            for k_, n_, b_, d_ in req.params:
+                if k_ == 'type' and b_:
+                    for part in b_.split('+'):
+                        tk = trait_key(part)
+                        if tk:
+                            inst[n_] = inst[n_] + [tk]
             inst = {p: sorted(close_super(ts)) for p, ts in inst.items()}
             args = {p: pr.argtype(ts) for p, ts in inst.items()}
             lab = f'val:{j}:{tr}'
@@ -1027,9 +1044,66 @@ def main(prop, tier, seed, keep=False):
     validated = 0
     if pr.qs:
         okp, res, out, pd = pr.run(prop.lower())
+        if not okp and asked:
+            # the probe does not build: find the SAT cases whose expansion itself is rejected by rustc (an impl whose
+            # where-clause is weaker than its body or its supertraits need): each is built alone
+            shutil.rmtree(pd, ignore_errors=True)
+            still = []
+            for lab, i, f_says in asked:
+                req, tr, mode, inst, _ = sat_cases[i]
+                one = Probe()
+                one.add_req(req, 'v0')
+                one.qs.append(('builds', 'true'))
+                ok1, res1, out1, pd1 = one.run(f'{prop.lower()}_one{i}')
+                if not ok1:
+                    rd = os.path.join(VERIF, 'replays', prop, f'{req.rid}_{tr}_compile')
+                    shutil.rmtree(rd, ignore_errors=True)
+                    os.makedirs(os.path.dirname(rd), exist_ok=True)
+                    shutil.copytree(pd1, rd)
+                    errs = [l for l in out1.splitlines() if l.startswith('error')][:3]
+                    open(os.path.join(rd, 'REPLAY.md'), 'w').write(f'property {prop}\nrequest:\n{req.source()}\nthe solver found W != F for impl {tr} (instantiation {inst}); `cargo build` of this crate fails: the emitted impl is rejected by rustc\n\n' + out1[-2500:])
+                    violations.append(dict(config=f'{req.rid} {tr} mode={mode}', what=f'emitted impl {tr} has a where-clause that differs from what the property names (solver model {inst}) and the expansion does not compile (compiler verdict): ' + '; '.join(errs), replay=rd))
+                else:
+                    still.append((lab, i, f_says))
+                shutil.rmtree(pd1, ignore_errors=True)
+            asked = still
+            # rebuild the probe without the non-compiling requests
+            bad_ids = {sat_cases[i][0].rid for (_, i, _) in []}
+            pr2 = Probe()
+            for lab, i, f_says in asked:
+                req, tr, mode, inst, _ = sat_cases[i]
+                pr2.add_req(req, f'v{i}')
+                args = {p_: pr2.argtype(ts) for p_, ts in inst.items()}
+                tpath = TPATH['IntoU8'] if tr == 'Into' else TPATH['IntoU16'] if tr == 'Into16' else (TPATH.get(tr) or f'::core::ops::{tr}')
+                pr2.ask(lab, f'v{i}::Ty{req.ty_args(args)}', tpath)
+            val_pairs = []
+            if pr2.qs:
+                okp, res, out, pd = pr2.run(prop.lower() + '_b')
+            else:
+                okp, res, out, pd = True, {}, '', None
         if not okp:
             inconclusive.append('probe crate for replay/validation failed to build or run: ' + out[-1200:])
         else:
+            # the expansion order of several Into impls depends on std's per-process RandomState (C16), so the impl the
+            # solver's model is about may be a different one in rustc's process: unconfirmed models are re-asked in fresh builds
+            pending = [lab for lab, i, f_says in asked if res.get(lab) == f_says]
+            for attempt in range(1, 5):
+                if not pending:
+                    break
+                ok2, res2, out2, pd2 = (pr2 if 'pr2' in dir() and pr2.qs else pr).run(prop.lower() + '_retry', nonce=attempt)
+                if ok2:
+                    for lab in list(pending):
+                        f_says = next(f for l, i, f in asked if l == lab)
+                        if res2.get(lab) is not None and res2[lab] != f_says:
+                            res[lab] = res2[lab]
+                            pending.remove(lab)
+                    if pending:
+                        shutil.rmtree(pd2, ignore_errors=True)
+                    else:
+                        shutil.rmtree(pd, ignore_errors=True)
+                        pd = pd2
+                else:
+                    break
             for lab, i, f_says in asked:
                 req, tr, mode, inst, _ = sat_cases[i]
                 rustc_says = res[lab]
@@ -1059,7 +1133,8 @@ def main(prop, tier, seed, keep=False):
                 validated += 1
                 if res.get(lab) != f_says:
                     inconclusive.append(f'validation: {req.rid}/{tr} {inst}: encoder F says {f_says}, rustc says {res.get(lab)}\n{req.source()}')
-            shutil.rmtree(pd, ignore_errors=True)
+            if pd:
+                shutil.rmtree(pd, ignore_errors=True)
     for req, tr, why in header_bad:
         rd = os.path.join(VERIF, 'replays', prop, f'{req.rid}_{tr}_header')
         os.makedirs(rd, exist_ok=True)
